@@ -22,12 +22,40 @@ const TARGETS: [(&str, M2Version); 5] = [
     ("BfA", M2Version::BfA),
 ];
 const SECS: [&str; 5] = ["indices", "triangles", "bone_indices", "submeshes", "batches"];
-const LEVELS: [&str; 3] = ["empty", "one", "many"];
+const LEVELS: [&str; 5] = ["empty", "one", "many", "300", "65537"];
+const LEVEL_COUNTS: [usize; 5] = [0, 1, 3, 300, 65537];
 
-pub struct SkinSpace;
+/// quick: full product of 5 sections x {empty, one, many}; thorough: full product over
+/// {empty, one, many, 300} plus every tuple over {empty, many} in which one or two sections
+/// are raised to 65537 elements (past the 16-bit boundary of the index values)
+pub struct SkinSpace {
+    tuples: Vec<[u64; 5]>,
+}
 impl SkinSpace {
-    pub fn new(_t: Tier) -> Self {
-        SkinSpace
+    pub fn new(t: Tier) -> Self {
+        let mut tuples = vec![];
+        let r = t.pick(3u64, 4u64);
+        for i in 0..r.pow(5) {
+            let d = vcore::gen::mixed_radix(i, &[r; 5]);
+            tuples.push([d[0], d[1], d[2], d[3], d[4]]);
+        }
+        if t == Tier::Thorough {
+            // one or two sections raised to 65537 elements, the others over {empty, many}
+            for mask in 1..32u32 {
+                if mask.count_ones() > 2 {
+                    continue;
+                }
+                let low: Vec<usize> = (0..5).filter(|k| mask >> k & 1 == 0).collect();
+                for bits in 0..(1u32 << low.len()) {
+                    let mut tup = [4u64; 5];
+                    for (x, &k) in low.iter().enumerate() {
+                        tup[k] = if bits >> x & 1 == 1 { 2 } else { 0 };
+                    }
+                    tuples.push(tup);
+                }
+            }
+        }
+        SkinSpace { tuples }
     }
 }
 
@@ -73,12 +101,18 @@ struct Parts {
     batches: Vec<SkinBatch>,
 }
 fn parts(lv: &[u64]) -> Parts {
+    let n = |k: usize| LEVEL_COUNTS[lv[k] as usize];
+    let cyc16 = |pool: &[u16], n: usize| -> Vec<u16> { (0..n).map(|i| pool[i % pool.len()]).collect() };
     Parts {
-        indices: [vec![], vec![7u16], vec![0, 1, 2, 0xFFFF, 4, 5]][lv[0] as usize].clone(),
-        triangles: [vec![], vec![0u16, 1, 2], vec![0, 1, 2, 2, 1, 3, 5, 4, 0xFFFF]][lv[1] as usize].clone(),
-        bone_indices: [vec![], vec![0u8, 1, 2, 3], vec![0, 0, 0, 0, 255, 1, 0, 9, 4, 3, 2, 1]][lv[2] as usize].clone(),
-        submeshes: (0..[0, 1, 3][lv[3] as usize]).map(submesh).collect(),
-        batches: (0..[0, 1, 3][lv[4] as usize]).map(batch).collect(),
+        indices: if lv[0] < 3 { [vec![], vec![7u16], vec![0, 1, 2, 0xFFFF, 4, 5]][lv[0] as usize].clone() } else { cyc16(&[0, 1, 2, 0xFFFF, 4, 5], n(0)) },
+        triangles: if lv[1] < 3 { [vec![], vec![0u16, 1, 2], vec![0, 1, 2, 2, 1, 3, 5, 4, 0xFFFF]][lv[1] as usize].clone() } else { cyc16(&[0, 1, 2, 2, 1, 3, 5, 4, 0xFFFF], n(1) * 3) },
+        bone_indices: if lv[2] < 3 {
+            [vec![], vec![0u8, 1, 2, 3], vec![0, 0, 0, 0, 255, 1, 0, 9, 4, 3, 2, 1]][lv[2] as usize].clone()
+        } else {
+            (0..n(2) * 4).map(|i| [0u8, 0, 0, 0, 255, 1, 0, 9, 4, 3, 2, 1][i % 12]).collect()
+        },
+        submeshes: (0..n(3)).map(submesh).collect(),
+        batches: (0..n(4)).map(batch).collect(),
     }
 }
 
@@ -278,17 +312,28 @@ fn roundtrip(r: &mut CaseResult, s: &SkinFile, tag: &str) -> Option<Vec<u8>> {
     out
 }
 
+impl SkinSpace {
+    /// (five section levels, layout): the tuple index runs fastest, as before
+    fn decode(&self, i: u64) -> [u64; 6] {
+        let t = self.tuples[i as usize % self.tuples.len()];
+        [t[0], t[1], t[2], t[3], t[4], i / self.tuples.len() as u64]
+    }
+}
+
 impl Space for SkinSpace {
     fn len(&self) -> u64 {
-        243 * LAYOUTS.len() as u64
+        (self.tuples.len() * LAYOUTS.len()) as u64
     }
     fn describe(&self, i: u64) -> Value {
-        let d = vcore::gen::mixed_radix(i, &[3, 3, 3, 3, 3, LAYOUTS.len() as u64]);
+        let d = self.decode(i);
         json!({"space": "skin", "layout": LAYOUTS[d[5] as usize].0, "indices": LEVELS[d[0] as usize], "triangles": LEVELS[d[1] as usize],
                "bone_indices": LEVELS[d[2] as usize], "submeshes": LEVELS[d[3] as usize], "batches": LEVELS[d[4] as usize]})
     }
+    fn case_timeout(&self) -> u64 {
+        120
+    }
     fn run(&self, i: u64) -> CaseResult {
-        let d = vcore::gen::mixed_radix(i, &[3, 3, 3, 3, 3, LAYOUTS.len() as u64]);
+        let d = self.decode(i);
         let mut r = CaseResult::new();
         r.key = format!("skin/{:?}", d);
         r.nontrivial = d[..5].iter().any(|x| *x != 0);
